@@ -245,7 +245,7 @@ class Mode:
         return self.And([self.close(x, y, tol, scale) for x, y in zip(xs, ys)])
 
     # ---------------------------------------------------------------- obligations
-    def check(self, label, formula, key=None, info=None, timeout_ms=None):
+    def check(self, label, formula, key=None, info=None, timeout_ms=None, drop=None):
         """Obligation: the formula holds on this path for all inputs."""
         self.nchecks += 1
         key = key or label
@@ -256,7 +256,7 @@ class Mode:
             else:
                 f1 = f
             c = Ctx.cur
-            r = c.prove(f1, label, timeout_ms=timeout_ms, info={"key": key, "info": info})
+            r = c.prove(f1, label, timeout_ms=timeout_ms, info={"key": key, "info": info}, drop=drop)
             if r == "sat" and isinstance(f, z3.ExprRef):
                 # prefer a counterexample that violates the property by a clear margin
                 f2 = core.subst_const(f, TOLV, core.realval(ROBUST_TOL))
